@@ -115,7 +115,9 @@ func (c *c01Gen) leafOf(t c01Type) string {
 	}
 }
 
-var c01ArithOps = []string{"+", "-", "*", "//", "%", "&", "|", "^", "/"}
+// true division is left to the operator tables (plain int operands): in random trees its float results would flow into ** and
+// compare Go's math.Pow with libm's pow in the last bit, which Python does not define (C15 scope note)
+var c01ArithOps = []string{"+", "-", "*", "//", "%", "&", "|", "^"}
 var c01CmpOps = []string{"<", "<=", ">", ">=", "==", "!="}
 
 // expr generates an expression of (roughly) type t. All sub-expressions are parenthesised by
